@@ -37,6 +37,8 @@ RULE = ("case = (model configuration: memory type, clock -> cl/cwl, DQ width 8-6
         "non-trivial = the trace reads a location written <= tWTR + WL + BL/2 DRAM clocks earlier, contains a masked write, addresses a column >= 1024, or reads "
         "image contents from >= 2 banks of an image that spans >= 2 banks; distinct = distinct (configuration, case) digests")
 ASSUMPTIONS = [
+    "generated timing sets have tRCD, tRP, tRRD >= nphases DRAM clocks: row commands to one bank (or PRE->ACT, ACT->RD/WR) never share a controller cycle; the bundled model "
+    "applies the commands of one controller cycle simultaneously, no library device and no litedram controller produces such pairs (outside the domain)",
     "reference DRAM (lib/refdram.py) is the definition of a DRAM at the DFI boundary: JEDEC command truth table, A10 = auto-precharge / all-banks and never a column bit, "
     "write data sampled write_latency cycles after the command on all phases, read data with rddata_valid on all phases read_latency cycles after it (PhySettings); its state and timing "
     "monitors must accept every generated trace (otherwise harness error)",
